@@ -13,6 +13,10 @@ mutual
     | b, .namedExpr t v, e', h => by
         simp only [transf] at h
         obtain ⟨v', hv, h⟩ := bind_ok h
+        by_cases hm : b.contains lamMark = true
+        · rw [if_pos hm] at h; cases pure_ok h
+          rw [transf_module_id n hn b v v' hv]
+        rw [if_neg hm] at h
         obtain ⟨r, hr, h⟩ := bind_ok h
         simp only [Nsp.getAssign, hn] at hr
         cases hr
